@@ -215,7 +215,9 @@ def gen_extract(rnd, pack='*', with_defs=False):
                 emit('hvQ')
             emit('|')
         elif ctx == 'verbatim':
-            emit('\\begin{verbatim}')
+            # (white space with at most one line break may stand between \begin and the name)
+            emit(rnd.choice(['\\begin{verbatim}', '\\begin{verbatim}', '\\begin {verbatim}', '\\begin\n{verbatim}',
+                             '\\begin\n    {verbatim}', '\\begin\t{verbatim}', '\\begin \n{verbatim}']))
             listed_call(False)
             emit('\\end{verbatim}')
         elif ctx == 'unlisted':
